@@ -151,11 +151,20 @@ def run_all(repo, modules, only=None, props=None, timeout=30000, procs=16, both=
         rows = [dict(name=j["name"], kind=j["kind"], line=j["line"], **res[j["name"]]) for j in g["jobs"]]
         ok = sum(1 for r in rows if r["result"] == "unsat")
         vac = [c["name"] for c in g["covers"] if cover_res.get(c["name"]) == "unsat"]
+        # a single infeasible path that the 0.5 s pruning check did not decide is harmless (its obligations are trivially valid); a *group* of paths
+        # (all paths whose last cut point is the same loop head / loop exit / function entry) that is entirely unsatisfiable means the hypotheses
+        # introduced there (requires, invariant) are contradictory: that is a vacuous proof and a checker fault.
+        import re as _re
+        groups = {}
+        for c in g["covers"]:
+            sig = c["name"].split("::cover@", 1)[1]; marks = _re.findall(r"/(?:L|X)\d+", sig); key = marks[-1] if marks else "entry"
+            groups.setdefault(key, []).append(cover_res.get(c["name"]))
+        vac_groups = sorted(k for k, rs in groups.items() if rs and all(r == "unsat" for r in rs))
         for r in rows:
             if r["result"] == "unsat": report["by_backend"][r["backend"].split("(")[0]] = report["by_backend"].get(r["backend"].split("(")[0], 0) + 1
         report["functions"].append({k: v for k, v in g.items() if k not in ("jobs", "covers")} | {
             "obligations": len(rows), "discharged": ok, "failed": [r for r in rows if r["result"] != "unsat"], "names": [r["name"] for r in rows],
-            "solver_s": round(sum(r["solver_s"] for r in rows), 2), "covers": len(g["covers"]), "vacuous_paths": vac,
+            "solver_s": round(sum(r["solver_s"] for r in rows), 2), "covers": len(g["covers"]), "vacuous_paths": vac, "vacuous_groups": vac_groups,
             "cvc5_agree": (sum(1 for r in rows if r.get("cvc5") == "unsat") if both else None),
             "slowest": sorted(((r["solver_s"], r["name"]) for r in rows), reverse=True)[:3]})
         report["obligations"] += len(rows); report["discharged"] += ok; report["solver_s"] += sum(r["solver_s"] for r in rows)
